@@ -374,6 +374,17 @@ pub fn problem_generic() -> BoxedStrategy<(Problem, Vec<f64>)> {
         .boxed()
 }
 
+/// strongly non-linear variant of the generic family for the path invariants only: the sine amplitudes are 5-30 times
+/// larger, so that L dt_max reaches 1-10 and the implicit solvers' inner iteration can fail or need smaller steps
+pub fn problem_generic_strong() -> BoxedStrategy<(Problem, Vec<f64>)> {
+    (problem_generic(), gen::fl(5.0, 30.0))
+        .prop_map(|((p, y0), f)| match p {
+            Problem::Generic { al, om, be, ga, nu } => (Problem::Generic { al: al.into_iter().map(|a| a * f).collect(), om, be, ga, nu }, y0),
+            other => (other, y0),
+        })
+        .boxed()
+}
+
 /// the whole family with the stated weights
 pub fn problem_any() -> BoxedStrategy<(Problem, Vec<f64>)> {
     prop_oneof![3 => problem_lin(false), 1 => problem_lin(true), 2 => problem_forced(), 2 => problem_sep(), 3 => problem_generic()].boxed()
